@@ -190,22 +190,11 @@ def insert_wrappers(ctx, R5="C08.R5") -> None:
     # ---- R5  (path summaries: locals and temporaries are substituted away)
     df = prog.cls("hugr.build.dfg.DfBase")
     dfile = df.module.path
-    q = "hugr.build.dfg.DfBase._insert_nested_impl"
-    impl, _, _ = ctx.locate(q)
-    b = impl.args.args[1].arg
-    va = impl.args.vararg.arg if impl.args.vararg else "args"
-    ps = [p for p in ctx.paths(q) if p.kind != "raise"]
-    ins = f"self.hugr.insert_hugr({b}.hugr, self.parent_node)"
-    ok = bool(ps)
-    for p in ps:
-        i1 = p.find_effect(ins)
-        w = p.find_effect(f"self._wire_up({ins}[{b}.parent_node], {va})")
-        ok = ok and len(i1) >= 1 and len(w) == 1 and p.kind == "return" and p.value_text() == f"{ins}[{b}.parent_node]"
-        # the hugr is inserted once: the call text recurs only through substitution of the mapping
-        ok = ok and sum(1 for e in p.effects if isinstance(e, ast.Expr) and u(e.value) == ins) == 1
-    ctx.check(ok, R5, "DfBase._insert_nested_impl", dfile, impl.lineno,
-              "the inserted builder's HUGR goes under this builder's parent node, the given wires are connected to the image of its root, which is returned", impl,
-              found="; ".join(p.describe() + " :: " + " | ".join(p.effect_texts()) for p in ps)[:400])
+    # stated on the public insert_* wrappers with the private implementation helper seen through (its signature is free):
+    # the builder's HUGR is inserted once under this builder's parent node, the wires of the table are connected in order to the
+    # image of the builder's root, and that image is returned
+    if "_insert_nested_impl" not in df.methods:
+        ctx.note("DfBase._insert_nested_impl no longer exists: the wrappers are judged on their own bodies")
     nf = NF(prog)
     table = {
         "insert_nested": "(*args,)",
@@ -213,32 +202,47 @@ def insert_wrappers(ctx, R5="C08.R5") -> None:
         "insert_conditional": "(cond_wire, *args)",
         "insert_tail_loop": "(*just_inputs, *rest)",
     }
+    first = True
     for name, rest in table.items():
         m, _, _ = ctx.locate(f"hugr.build.dfg.DfBase.{name}")
         params = [a.arg for a in m.args.args]
+        b = params[1]
         env = Env(df.module, df, {a: sym(a) for a in params}, {})
         if m.args.vararg:
             env.vars[m.args.vararg.arg] = sym(m.args.vararg.arg)
-        ps = ctx.paths(f"hugr.build.dfg.DfBase.{name}")
-        ok = bool(ps)
+        ps = [p for p in ctx.paths(f"hugr.build.dfg.DfBase.{name}", inline=("_insert_nested_impl",)) if p.kind != "raise"]
+        ins = f"self.hugr.insert_hugr({b}.hugr, self.parent_node)"
+        image = f"{ins}[{b}.parent_node]"
+        ok_impl = ok_wires = bool(ps)
         found = ""
         for p in ps:
-            if p.kind == "raise":
-                continue
-            v = p.value
-            found = p.value_text()
-            good = p.kind == "return" and isinstance(v, ast.Call) and u(v.func) == "self._insert_nested_impl" and len(v.args) >= 1 and not v.keywords
+            w = p.find_effect(f"self._wire_up({image}, E_w)")
+            found = p.describe() + " :: " + " | ".join(p.effect_texts())
+            ok_impl = ok_impl and len(w) == 1 and len(p.find_effect("self._wire_up(ANY_, ANY_)")) == 1 and p.kind == "return" and p.value_text() == image
+            # the hugr is inserted once: the call text recurs only through substitution of the mapping
+            ok_impl = ok_impl and sum(1 for e in p.effects if isinstance(e, ast.Expr) and u(e.value) == ins) == 1
+            good = len(w) == 1
             if good:
-                got_first = u(v.args[0])
+                call = w[0][1].value if isinstance(w[0][1], ast.Expr) else w[0][1]
                 try:
-                    got_rest = nf.ev(ast.Tuple(elts=v.args[1:], ctx=ast.Load()), env)
+                    got_rest = nf.ev(call.args[1], env)
                     want_rest = nf.ev(ast.parse(rest, mode="eval").body, env)
-                    good = got_first == params[1] and _flatten(got_rest) == _flatten(want_rest)
+                    good = _flatten(got_rest) == _flatten(want_rest)
                 except Opaque:
                     good = False
-            ok = ok and good
-        ctx.check(ok, R5, f"DfBase.{name}", dfile, m.lineno,
-                  f"{name} must call _insert_nested_impl({params[1]}, {rest[1:-1].rstrip(',')}) -- the same wire order its add_* twin uses", m, found=found)
+            ok_wires = ok_wires and good
+        if first:
+            impl = df.methods.get("_insert_nested_impl", m)
+            ctx.check(ok_impl, R5, "DfBase._insert_nested_impl", dfile, impl.lineno,
+                      "the inserted builder's HUGR goes under this builder's parent node, the given wires are connected to the image of its root, which is returned", impl,
+                      found=found[:400])
+            first = False
+        else:
+            ctx.check(ok_impl, R5, f"DfBase.{name}: insertion", dfile, m.lineno,
+                      "the inserted builder's HUGR goes under this builder's parent node, the given wires are connected to the image of its root, which is returned", m,
+                      found=found[:400])
+        ctx.check(ok_wires, R5, f"DfBase.{name}", dfile, m.lineno,
+                  f"{name} must wire {rest[1:-1].rstrip(',')} to the inserted node -- the same wire order its add_* twin uses", m, found=found[:300])
     # twins: add_conditional wires (cond_wire, *args); add_tail_loop wires (*just_inputs, *rest)
     for name, want in (("add_conditional", "(cond_wire, *args)"), ("add_tail_loop", "(*just_inputs, *rest)")):
         m, _, _ = ctx.locate(f"hugr.build.dfg.DfBase.{name}")
